@@ -26,7 +26,12 @@ META = {
         "structEq_clone (a tree and its renamed copy with external references kept).  Tie to /repo: every generated / corpus / mutated pair is run through the real "
         "methods, through an independent Python isomorphism oracle (canonical numbering by first "
         "occurrence) and through the Lean driver (`eq` = model of the code, `iso` = proved decision "
-        "procedure); all three verdicts are compared pair by pair."
+        "procedure); all three verdicts are compared pair by pair.  CSE's table key: for every pair of "
+        "operations (without successors) OperationInfo.__eq__ (both ways), hash equality and a dict lookup are "
+        "compared with a second direct oracle (same entry iff name, attribute / property mappings, identical "
+        "operand values, result types and region-wise isomorphism agree), including clones whose attribute / "
+        "property dictionaries were refilled in the opposite order; CSE itself is run on two candidates that are "
+        "identical, differ in one field, or are identical but written with reordered dictionaries."
     ),
     "technique": "Lean 4 proofs over a tree model + differential correspondence (real code / Lean model / independent oracle) on generated pairs, clones, corpus and every single-point mutation",
     "level_note": (
@@ -37,7 +42,10 @@ META = {
         "MLIR scoping in every region kind; such trees are still sent through the model/implementation "
         "correspondence, only the oracle is not applied to them).  The parent check of the operation "
         "method is exercised (attached operations are compared) but not modelled (it cannot fail from "
-        "an empty context)."
+        "an empty context).  OperationInfo is compared with its oracle only on operation pairs without "
+        "successors (CSE never keys terminators; the key ignores successors) and not on corpus mutants (cost); "
+        "the insertion order of an attribute / property dictionary is taken to be representation, not content "
+        "(Operation.is_structurally_equivalent, dict ==, the printer/parser round trip all treat it so)."
     ),
     "rule": (
         "A case is an ordered pair of IR trees (operation, block or region roots).  Sources: a fixed "
@@ -45,7 +53,8 @@ META = {
         "from a later block, nested region using an enclosing forward value, successors forward and "
         "backward, external operands, duplicated siblings, sibling using the other sibling's value) and "
         "seeded random programs (depth ≤ 3, 1–3 blocks per region, 0–2 regions per op), each taken "
-        "against itself, its real clone(), a rebuilt copy, its sub-nodes against the clone's sub-nodes, "
+        "against itself, its real clone(), the clone with every attribute / property dictionary refilled in the "
+        "opposite order, a rebuilt copy, its sub-nodes against the clone's sub-nodes, "
         "neighbouring siblings, and against EVERY single-point mutation of the listed kinds (small "
         "programs) or a random sample of them (large programs, corpus modules); plus the parseable "
         "chunks of tests/**/*.mlir.  Non-trivial = the pair has equal op-name skeleton (so the verdict "
@@ -532,6 +541,120 @@ def cross_reference(a: Any, b: Any) -> bool:
 
 
 # ---------------------------------------------------------------------------------------------
+# CSE's table key: independent statement of when two operations are the same table entry, and a
+# representation change that must never matter (insertion order of the attribute / property dicts)
+# ---------------------------------------------------------------------------------------------
+INFO_FIELDS = ["operation name", "attributes", "properties", "operands", "result types", "number of regions", "regions"]
+
+
+def info_key(op: Any, with_regions: bool = True) -> tuple:
+    """what OperationInfo is documented to compare: name, attributes and properties as *mappings*,
+    the very same operand values, result types, and regions up to isomorphism (objects defined
+    outside a region by identity)"""
+    return (op.name,
+            sorted(op.attributes.items(), key=lambda kv: kv[0]),
+            sorted(op.properties.items(), key=lambda kv: kv[0]),
+            tuple(id(v) for v in op.operands),
+            tuple(op.result_types),
+            len(op.regions),
+            tuple(canon(r) for r in op.regions) if with_regions else ())
+
+
+def info_diff(a: Any, b: Any) -> str | None:
+    """None when the two operations are the same CSE table entry, else the first differing field"""
+    ka, kb = info_key(a, False), info_key(b, False)
+    for i in range(6):
+        if ka[i] != kb[i]:
+            return INFO_FIELDS[i]
+    if a is b:
+        return None
+    for ra, rb in zip(a.regions, b.regions):
+        if _region_canon(ra) != _region_canon(rb):
+            return "regions"
+    return None
+
+
+_REGION_CANON: dict[int, tuple] = {}
+
+
+def _region_canon(r: Any) -> Any:
+    """canon(r), remembered while the batch that keeps the trees alive (and unmodified) lives"""
+    k = id(r)
+    if k not in _REGION_CANON:
+        if len(_REGION_CANON) > 20000:
+            _REGION_CANON.clear()
+        _REGION_CANON[k] = (r, canon(r))
+    return _REGION_CANON[k][1]
+
+
+def dict_order_differs(a: Any, b: Any) -> bool:
+    return (list(a.attributes) != list(b.attributes)) or (list(a.properties) != list(b.properties))
+
+
+def has_multi_dict(node: Any) -> bool:
+    from xdsl.ir import Block, Operation
+    if isinstance(node, Operation):
+        ops = node.walk()
+    elif isinstance(node, Block):
+        ops = (x for o in node.ops for x in o.walk())
+    else:
+        ops = (x for blk in node.blocks for o in blk.ops for x in o.walk())
+    return any(len(o.attributes) > 1 or len(o.properties) > 1 for o in ops)
+
+
+def permute_dicts(node: Any) -> Any:
+    """refill every attribute / property dictionary of the tree in the opposite order (same mapping)"""
+    from xdsl.ir import Block, Operation
+    if isinstance(node, Operation):
+        ops = list(node.walk())
+    elif isinstance(node, Block):
+        ops = [x for o in node.ops for x in o.walk()]
+    else:
+        ops = [x for blk in node.blocks for o in blk.ops for x in o.walk()]
+    for o in ops:
+        if len(o.attributes) > 1:
+            o.attributes = dict(reversed(list(o.attributes.items())))
+        if len(o.properties) > 1:
+            o.properties = dict(reversed(list(o.properties.items())))
+    return node
+
+
+def info_obs(a: Any, b: Any) -> Any:
+    """(a==b, b==a, hashes equal, found through a dict) of the real OperationInfo, or 'raise X'"""
+    from xdsl.transforms.common_subexpression_elimination import OperationInfo
+    try:
+        ia, ib = OperationInfo(a), OperationInfo(b)
+        return [bool(ia == ib), bool(ib == ia), hash(ia) == hash(ib), {ia: 1}.get(ib) == 1]
+    except Exception as e:  # noqa: BLE001
+        return "raise " + core.exc_name(e)
+
+
+def info_verdict(a: Any, b: Any) -> tuple[str | None, str, Any, Any]:
+    """(failure signature or None, description, observed, expected)"""
+    d = info_diff(a, b)
+    obs = info_obs(a, b)
+    exp = d is None
+    if isinstance(obs, str):
+        return f"OperationInfo comparison {obs}", "exception from OperationInfo.__eq__/__hash__", obs, exp
+    eab, eba, heq, found = obs
+    if exp:
+        how = (" (their attribute or property dictionaries were filled in a different order)"
+               if dict_order_differs(a, b) else "")
+        if not (eab and eba):
+            return ("OperationInfo unequal for operations that agree on every field" + how,
+                    "CSE's table key reports two operations with the same name, operands, result types, attribute and "
+                    "property mappings and isomorphic regions as different", obs, exp)
+        if not heq or not found:
+            return ("OperationInfo of equal operations hash differently" + how,
+                    "equal table keys with different hashes: the known-ops table cannot find the entry", obs, exp)
+        return None, "", obs, exp
+    if eab or eba:
+        return (f"OperationInfo equal for operations that differ in: {d}",
+                f"CSE's table key reports operations as equal although they differ in {d}", obs, exp)
+    return None, "", obs, exp
+
+
+# ---------------------------------------------------------------------------------------------
 # serialisation to the Lean model's line protocol
 # ---------------------------------------------------------------------------------------------
 
@@ -866,6 +989,16 @@ def templates() -> list[tuple[str, dict]]:
     ]])))
     # smallest cross reference: the first op uses the second one's result, the second uses its own
     t.append(("op_uses_sibling_result", wrap([mk_op(o=[2], r=[[1, "i32"]]), mk_op(o=[2], r=[[2, "i32"]])])))
+    # several attributes / properties on the root and on two CSE-candidate siblings whose dictionaries
+    # hold the same mapping written in a different order
+    t.append(("root_attrs_props", mk_op(n="test.pureop", o=[E], r=[[1, "i32"]], a={"k0": "i0", "k1": "sa", "k2": "unit"},
+                                        p={"p0": "i1", "p1": "sb"})))
+    t.append(("siblings_dict_order", wrap([
+        mk_op(r=[[1, "i32"]]),
+        mk_op(n="test.pureop", o=[1, E], r=[[2, "i32"]], a={"k0": "i0", "k1": "sa"}, p={"p0": "i1", "p1": "sb"}),
+        mk_op(n="test.pureop", o=[1, E], r=[[3, "i32"]], a={"k1": "sa", "k0": "i0"}, p={"p1": "sb", "p0": "i1"}),
+        mk_op(n="test.pureop", o=[1, E], r=[[4, "i32"]], a={"k1": "sa", "k0": "i0"}, p={"p0": "i1", "p1": "sb"}),
+    ])))
     t.append(("unregistered", wrap([mk_op(n="u:foo.bar", r=[[1, "i32"]]), mk_op(n="u:foo.baz", o=[1])])))
     return t
 
@@ -891,7 +1024,7 @@ def random_program(rng: Any, size: int, ill_scoped: bool) -> tuple[dict, bool]:
         o = mk_op(n=rng.choice(OP_NAMES[:2] if rng.random() < 0.7 else OP_NAMES),
                   r=[[fresh(), rng.choice(TYPE_NAMES[:3])] for _ in range(rng.choice([0, 1, 1, 1, 2]))])
         if rng.random() < 0.4:
-            o["a"] = {k: rng.choice(ATTR_NAMES) for k in rng.sample(["k0", "k1", "k2"], rng.randint(1, 2))}
+            o["a"] = {k: rng.choice(ATTR_NAMES) for k in rng.sample(["k0", "k1", "k2"], rng.randint(1, 3))}
         if rng.random() < 0.25:
             o["p"] = {k: rng.choice(ATTR_NAMES) for k in rng.sample(["p0", "p1"], rng.randint(1, 2))}
         for _ in range(nreg):
@@ -964,13 +1097,13 @@ def random_program(rng: Any, size: int, ill_scoped: bool) -> tuple[dict, bool]:
         for i in range(len(b["ops"]) - 1):
             x, y = b["ops"][i], b["ops"][i + 1]
             if _same_shape(x, y) and rng.random() < 0.6:
-                _mirror(x, y)
+                _mirror(x, y, rng)
     for reg in all_regions(root):
         for i in range(len(reg) - 1):
             x, y = mk_op(g=[[reg[i]]]), mk_op(g=[[reg[i + 1]]])
             x["g"][0][0], y["g"][0][0] = reg[i], reg[i + 1]
             if _same_shape(x, y) and rng.random() < 0.6:
-                _mirror(x, y)
+                _mirror(x, y, rng)
     if ill_scoped:
         # use a value defined inside a nested region from an operation outside that region
         ops = list(spec_ops(root))
@@ -1002,7 +1135,7 @@ def _same_shape(x: dict, y: dict) -> bool:
     return True
 
 
-def _mirror(x: dict, y: dict) -> None:
+def _mirror(x: dict, y: dict, rng: Any = None) -> None:
     """make y's references the image of x's under the positional map of their definitions"""
     m: dict[int, int] = {}
 
@@ -1011,6 +1144,9 @@ def _mirror(x: dict, y: dict) -> None:
             m[a[0]] = b[0]
             b[1] = a[1]
         q["a"], q["p"] = dict(p["a"]), dict(p["p"])
+        if rng is not None and rng.random() < 0.5:
+            # the same mappings, written in the opposite order
+            q["a"], q["p"] = dict(reversed(list(q["a"].items()))), dict(reversed(list(q["p"].items())))
         for rp, rq in zip(p["g"], q["g"]):
             for bp, bq in zip(rp, rq):
                 m[bp["b"]] = bq["b"]
@@ -1091,6 +1227,7 @@ class Batch:
                 self.ctx.count("pairs.lean_scoped_but_not_region_scoped")
         self.lines, self.meta = [], []
         self.memo = {}
+        _REGION_CANON.clear()
         self.tables = Tables()
 
 
@@ -1114,6 +1251,8 @@ def classify_incomplete(a: Any, b: Any) -> str:
 def check_pair(ctx: core.Ctx, batch: Batch, a: Any, b: Any, case: dict, label: str = "") -> None:
     """both orders of one pair: implementation vs oracle (when both trees are region-scoped), and
     implementation / oracle / scoping vs the Lean model"""
+    from xdsl.ir import Operation
+
     (ca, sa, ka, _), (cb, sb, kb, _) = batch.facts(a), batch.facts(b)
     oracle = ca == cb
     iab, iba = impl_eq(a, b), impl_eq(b, a)
@@ -1152,6 +1291,22 @@ def check_pair(ctx: core.Ctx, batch: Batch, a: Any, b: Any, case: dict, label: s
         if not reported and iab != iba:
             fail(SITE, "verdict depends on the order of the two arguments", {**case, "order": "a,b"},
                      "a.is_structurally_equivalent(b) != b.is_structurally_equivalent(a)", [iab, iba], oracle)
+    if sa and sb and isinstance(a, Operation) and isinstance(b, Operation) and label != "corpus.mutant":
+        # the same pair through CSE's table key (no successors: CSE never enters terminators)
+        if a.successors or b.successors:
+            ctx.count("info.skipped_has_successors")
+        else:
+            ctx.ev()
+            ctx.count("info.pairs")
+            import time as _t
+            _t0 = _t.perf_counter()
+            sig, desc, obs, exp = info_verdict(a, b)
+            ctx.extra["info_seconds"] = round(ctx.extra.get("info_seconds", 0.0) + _t.perf_counter() - _t0, 3)
+            ctx.count("info." + ("same_entry" if exp else "different_entry"))
+            if exp and a is not b and dict_order_differs(a, b):
+                ctx.count("info.same_entry_dicts_in_different_order")
+            if sig is not None:
+                fail(SITE_CSE, sig, {**case, "order": "a,b"}, desc, obs, exp)
     batch.add(batch.pair_line(a, b), impl=iab if iab in (True, False) else None, oracle=oracle, scoped=sa, case={**case, "order": "a,b"})
     if b is not a:
         batch.add(batch.pair_line(b, a), impl=iba if iba in (True, False) else None, oracle=oracle, scoped=sb, case={**case, "order": "b,a"})
@@ -1194,6 +1349,16 @@ def run_program(ctx: core.Ctx, batch: Batch, name: str, spec: dict, all_mutation
             v = impl_eq(n, c)
             batch.add(batch.clone_line(n), impl=v if v in (True, False) else None, oracle=None,
                       scoped=batch.facts(n)[1], case={**base, "a": p, "b": {"model_clone": p}})
+    # 2b. the same clones with every attribute / property dictionary refilled in the opposite order
+    #     (the mapping is the same: nothing may change, neither for the walk nor for CSE's key)
+    for p in pick:
+        if len(p) % 3 == 2:
+            continue
+        n = node_at(root, p)
+        if not has_multi_dict(n):
+            continue
+        c = permute_dicts(n.clone())
+        check_pair(ctx, batch, n, c, {**base, "a": p, "b": {"clone_perm": p}}, "clone_dict_order")
     # 3. rebuilt copy (same externals) — also guards the builder
     again = build(spec, ext)
     check_pair(ctx, batch, root, again, {**base, "a": [], "b": {"mutant": None, "path": []}}, "rebuilt")
@@ -1284,6 +1449,20 @@ def parse_chunk(rel: str, k: int) -> Any:
         return None
 
 
+def corpus_op_paths(root: Any) -> list[tuple[list[int], Any]]:
+    out: list[tuple[list[int], Any]] = []
+
+    def op_(op: Any, p: list[int]) -> None:
+        out.append((p, op))
+        for ri, reg in enumerate(op.regions):
+            for bi, b in enumerate(reg.blocks):
+                for oi, o in enumerate(b.ops):
+                    op_(o, p + [ri, bi, oi])
+
+    op_(root, [])
+    return out
+
+
 def n_chunks(rel: str) -> int:
     return len((core.REPO / rel).read_text(errors="replace").split("// -----"))
 
@@ -1310,6 +1489,15 @@ def run_corpus(ctx: core.Ctx, n_files: int | None, n_mut: int, max_ops: int, max
             base = {"file": rel, "chunk": k}
             check_pair(ctx, batch, mod, mod, {**base, "a": [], "b": {"same": []}}, "corpus.reflexive")
             check_pair(ctx, batch, mod, mod.clone(), {**base, "a": [], "b": {"clone": []}}, "corpus.clone")
+            if has_multi_dict(mod):
+                check_pair(ctx, batch, mod, permute_dicts(mod.clone()), {**base, "a": [], "b": {"clone_perm": []}},
+                           "corpus.clone_dict_order")
+                # attached operations that carry several attributes against their own reordered clone
+                # (a clone of an inner operation keeps its outside operands: a CSE candidate pair)
+                multi = [(q, o) for q, o in corpus_op_paths(mod) if q and (len(o.attributes) > 1 or len(o.properties) > 1)]
+                for q, o in (multi if len(multi) <= 4 else ctx.rng.sample(multi, 4)):
+                    check_pair(ctx, batch, o, permute_dicts(o.clone()), {**base, "a": q, "b": {"clone_perm": q}},
+                               "corpus.sub_clone_dict_order")
             ext = Ext()
             try:
                 spec = export(mod, ext)
@@ -1347,59 +1535,81 @@ def run_corpus(ctx: core.Ctx, n_files: int | None, n_mut: int, max_ops: int, max
 # use sites: CSE and ModulePass.schedule_space
 # ---------------------------------------------------------------------------------------------
 
-def use_site_module(variant: dict | None) -> Any:
-    """module { %a = pure {inner}; %b = pure {inner'}; test.op(%a, %b) } where inner' is `inner` with one
-    single-point mutation (or identical when variant is None)"""
-    inner = lambda base: [  # noqa: E731
-        mk_op(n="test.pureop", r=[[base + 1, "f32"]], a={"k0": "i0"}, p={"p0": "sa"}),
+def use_site_outer(base: int, res_id: int) -> dict:
+    """%res = pure {k0, k1} <{p0, p1}> ({ inner })"""
+    inner = [
+        mk_op(n="test.pureop", r=[[base + 1, "f32"]], a={"k0": "i0", "k1": "sb"}, p={"p0": "sa", "p1": "i1"}),
         mk_op(n="test.pureop", o=[base + 1, base + 1], r=[[base + 2, "f32"]]),
         mk_op(n="test.termop", o=[base + 2, base + 1]),
     ]
-    a = mk_op(n="test.pureop", r=[[1, "i32"]], g=[[mk_block(10, [], inner(10))]])
-    b = mk_op(n="test.pureop", r=[[2, "i32"]], g=[[mk_block(20, [], inner(20))]])
+    return mk_op(n="test.pureop", r=[[res_id, "i32"]], a={"k0": "i0", "k1": "sa"}, p={"p0": "sb", "p1": "i1"},
+                 g=[[mk_block(base, [], inner)]])
+
+
+def use_site_module(variant: dict | None) -> Any:
+    """module { %a = pure {inner}; %b = pure {inner'}; test.op(%a, %b) } where %b's operation is %a's with
+    one single-point mutation (or identical when variant is None)"""
+    a = use_site_outer(10, 1)
+    b = use_site_outer(20, 2)
     if variant is not None:
         b = apply_mutation(b, variant)
     user = mk_op(n="test.op", o=[1, 2])
     return mk_op(n="builtin.module", g=[[mk_block(0, [], [a, b, user])]])
 
 
-def run_use_sites(ctx: core.Ctx) -> None:
-    from xdsl.transforms.common_subexpression_elimination import CommonSubexpressionElimination
+OUTER_KINDS = ("region_add", "region_del", "attr_value", "attr_del", "attr_add", "prop_value", "prop_del", "prop_add",
+               "result_type")
 
-    probe = mk_op(n="test.pureop", r=[[2, "i32"]], g=[[mk_block(20, [], [
-        mk_op(n="test.pureop", r=[[21, "f32"]], a={"k0": "i0"}, p={"p0": "sa"}),
-        mk_op(n="test.pureop", o=[21, 21], r=[[22, "f32"]]),
-        mk_op(n="test.termop", o=[22, 21]),
-    ])]])
+
+def use_site_variants() -> list[dict | None]:
+    probe = use_site_outer(20, 2)
     variants: list[dict | None] = [None]
     for m in enumerate_mutations(probe):
-        if m.get("op") == 0 and m["kind"] not in ("region_add", "region_del"):
-            continue  # the outer op itself: fields CSE compares directly (kept: region count)
+        if m.get("op") == 0 and m["kind"] not in OUTER_KINDS:
+            continue  # the outer op itself: only the fields CSE's key compares
         if m["kind"] in ("op_del", "result_add") or (m["kind"] == "operand" and m["j"] > 2):
             continue
         variants.append(m)
+    return variants
+
+
+def run_use_sites(ctx: core.Ctx) -> None:
+    from xdsl.transforms.common_subexpression_elimination import CommonSubexpressionElimination
+
+    variants = use_site_variants()
     xc = xdsl_context()
-    for v in variants:
+    # every variant twice: as built, and with the dictionaries of the second candidate (outer operation
+    # and everything inside it) refilled in the opposite order — the same mappings, so the same verdict
+    for v, perm in [(v, perm) for v in variants for perm in (False, True)]:
         spec = use_site_module(v)
         ext = Ext()
         mod = build(spec, ext)
         ctx.ev()
-        ctx.count("use_site.cse")
-        # expected: merged iff the two outer ops are isomorphic apart from their own results
+        ctx.count("use_site.cse" + (".dict_order" if perm else ""))
+        # expected: merged iff the two outer ops are the same table entry (name, operands, result types,
+        # attribute / property mappings, isomorphic regions)
         ops = list(mod.body.block.ops)
-        same = canon(ops[0].regions[0]) == canon(ops[1].regions[0]) if len(ops[0].regions) == len(ops[1].regions) == 1 else False
+        if perm:
+            permute_dicts(ops[1])
+        d = info_diff(ops[0], ops[1])
         try:
             CommonSubexpressionElimination().apply(xc, mod)
             left = len(list(mod.body.block.ops))
             obs: Any = "merged" if left == 2 else "kept"
         except Exception as e:  # noqa: BLE001
             obs = "raise " + core.exc_name(e)
-        exp = "merged" if same else "kept"
+        exp = "merged" if d is None else "kept"
         if obs != exp:
-            what = "identical operations" if v is None else f"operations whose regions differ by mutation {v['kind']}"
+            inside = v is not None and v.get("op") != 0
+            what = ("identical operations" if v is None else
+                    f"operations {'whose regions differ' if inside else 'that differ'} by mutation {v['kind']}")
+            how = " written with their attribute / property dictionaries in a different order" if perm else ""
             sig = ("cse raises on operations that differ only in their number of regions" if obs.startswith("raise")
-                   else f"cse {obs} {('identical operations' if v is None else 'operations whose regions differ in one field: ' + v['kind'])}")
-            ctx.fail(SITE_CSE, sig, {"use_site": "cse", "variant": v}, f"cse: {what}: observed {obs}, expected {exp}", obs, exp)
+                   else f"cse {obs} {('identical operations' if v is None else ('operations whose regions differ in one field: ' if inside or v['kind'] in ('region_add', 'region_del') else 'operations that differ in one field: ') + v['kind'])}{how}")
+            case = {"use_site": "cse", "variant": v}
+            if perm:
+                case["perm"] = True
+            ctx.fail(SITE_CSE, sig, case, f"cse: {what}{how}: observed {obs}, expected {exp}", obs, exp)
     # schedule_space: a pass that performs exactly one single-point change must be offered
     from dataclasses import dataclass
 
@@ -1475,6 +1685,8 @@ def _pair_from_case(case: dict) -> tuple[Any, Any, dict | None]:
         b = node_at(root, bsel["same"])
     elif "clone" in bsel:
         b = node_at(root, bsel["clone"]).clone()
+    elif "clone_perm" in bsel:
+        b = permute_dicts(node_at(root, bsel["clone_perm"]).clone())
     elif "model_clone" in bsel:
         b = node_at(root, bsel["model_clone"]).clone()
     elif "clone_root_then" in bsel:
@@ -1527,5 +1739,15 @@ def replay(ctx: core.Ctx, body: dict) -> int:
     except core.InfraError as e:
         print("lean model    : unavailable", e)
     bad = (iab != oracle) or (iba != oracle)
+    from xdsl.ir import Operation
+    if isinstance(a, Operation) and isinstance(b, Operation) and not a.successors and not b.successors \
+            and py_scoped(a) and py_scoped(b):
+        sig, desc, obs, exp = info_verdict(a, b)
+        print("CSE table key  : attribute order a", list(a.attributes), "b", list(b.attributes),
+              "| property order a", list(a.properties), "b", list(b.properties))
+        print("OperationInfo  : [a==b, b==a, hashes equal, found in dict] =", obs, " expected same entry:", exp)
+        if sig is not None:
+            print("OperationInfo  :", sig)
+            bad = True
     print("property", "FAILS" if bad else "holds", "on this case")
     return 1 if bad else 0
